@@ -1,6 +1,7 @@
 """Dask-based and dask oriented variants of physt histogram facade functions."""
 from __future__ import annotations
 
+import warnings
 from typing import TYPE_CHECKING, cast
 
 import dask
@@ -16,6 +17,54 @@ if TYPE_CHECKING:
     from physt.typing_aliases import ArrayLike
 
 options = {"chunk_split": 16}
+
+# Bin specifications whose bins depend on the data they are given
+_DATA_DERIVED_BINS = ("pretty", "human")
+# Arguments of the facade functions that do not describe the bins
+_NOT_FOR_BINS = (
+    "weights", "dropna", "dtype", "keep_missed", "name", "title", "axis_name", "axis_names",
+    "dim", "dask_method", "compute",
+)  # fmt: skip
+
+
+def _bins_from_all_data(data: Array, bins: Any, kwargs: dict, *, columns: bool) -> Any:
+    """Bins that are derived from the data are derived from all of them.
+
+    Each block on its own would choose its own "pretty" width; the blocks get the
+    binning(s) found for the range and the number of all values instead.
+    """
+    specs = bins if isinstance(bins, (list, tuple)) else [bins]
+    if data.size == 0 or not any(
+        isinstance(spec, str) and spec in _DATA_DERIVED_BINS for spec in specs
+    ):
+        return bins
+    from physt._construction import calculate_1d_bins, calculate_nd_bins
+    from physt.binnings import ideal_bin_count
+
+    if columns:
+        # (Rows with a NaN anywhere are dropped as a whole)
+        valid = ~dask.array.isnan(data).any(axis=1)
+        data = dask.array.where(valid[:, None], data, np.nan)
+    else:
+        data = data.ravel()
+        valid = ~dask.array.isnan(data)
+    count = int(valid.sum().compute())
+    if not count:
+        return bins
+    with warnings.catch_warnings():
+        warnings.simplefilter("ignore", RuntimeWarning)  # blocks without a valid value
+        low, high = dask.compute(
+            dask.array.nanmin(data, axis=0), dask.array.nanmax(data, axis=0)
+        )
+    bin_kwargs = {key: value for key, value in kwargs.items() if key not in _NOT_FOR_BINS}
+    if bin_kwargs.get("bin_count") is None:
+        bin_kwargs["bin_count"] = ideal_bin_count(np.broadcast_to(0.0, (int(count),)))
+    extremes = np.stack([np.asarray(low, dtype=float), np.asarray(high, dtype=float)])
+    if columns:
+        return calculate_nd_bins(
+            extremes, bins, dim=data.shape[1], check_nan=False, **bin_kwargs
+        )
+    return calculate_1d_bins(extremes, bins, check_nan=False, **bin_kwargs)
 
 
 def _run_dask(
@@ -83,6 +132,7 @@ def histogram1d(
     if not kwargs.get("adaptive", True):
         raise ValueError("Only adaptive histograms supported for dask (currently).")
     kwargs["adaptive"] = True
+    bins = _bins_from_all_data(cast(Array, data), bins, kwargs, columns=False)
 
     def block_hist(array):
         return original_h1(array, bins, **kwargs)
@@ -126,6 +176,7 @@ def histogramdd(data: Union[Array, ArrayLike], bins: Any = None, **kwargs):
     if not kwargs.get("adaptive", True):
         raise ValueError("Only adaptive histograms supported for dask (currently).")
     kwargs["adaptive"] = True
+    bins = _bins_from_all_data(cast(Array, data), bins, kwargs, columns=True)
 
     def block_hist(array):
         return original_hdd(array, bins, **kwargs)
